@@ -1,6 +1,7 @@
 #!/bin/bash
 # usage: run_all.sh quick|thorough  — runs every check once, prints exit code and wall time per property
 tier=${1:-quick}
+mkdir -p work
 for p in C01 C02 C03 C04 C05 C06 C07 C08 C09 C10 C11 C12 C13 C14 C15 C16 C17 C18 C19 C20; do
   s=$(date +%s)
   ./check run $p --tier $tier > work/all_${tier}_$p.log 2>&1; rc=$?
